@@ -120,6 +120,7 @@ def run(tier):
         for alg in ALGS4:
             ns = set(range(1, 41)) | {41, 42}
             ns |= set(int(x) for x in rng.integers(43, 110, size=8))
+            ns.add(272)  # the largest grid of the exploration bound: its rows are those of every smaller N (prefix property)
             cases += [{"alg": alg, "N": n} for n in sorted(ns)]
         cases += [{"alg": "fulldiv", "N": 8}, {"alg": "fulldiv", "N": 40}]
     else:
@@ -136,7 +137,7 @@ def run(tier):
     cases.sort(key=lambda c: -(c["N"] ** (2 if c["alg"] in ALGS4 + ("fulldiv",) else 1)))
     res = merge_results(pmap(_one, cases))
     res.violations.sort(key=lambda v: v["case"]["N"])
-    rule = ("enumeration of (algorithm, N): " + ("every N in 1..50 (3D) / 1..42 (4D), level boundaries +-1, seeded larger N up to 700 / 110, fulldiv 8 and 40"
+    rule = ("enumeration of (algorithm, N): " + ("every N in 1..50 (3D) / 1..42 (4D), level boundaries +-1, seeded larger N up to 700 / 110, N=272 for both rotation algorithms, fulldiv 8 and 40"
             if tier == "quick" else "every N in 1..2563 (ico), 1..1539 (cube3D), 1..800 (randomS), 1..272 (cube4D, randomQ), fulldiv 8/40/272")
             + ", the zero grids and every N=1 name. Non-trivial = N>=2; distinct = distinct (algorithm, N).")
     return res, rule, {"exhaustive": tier == "thorough",
